@@ -9,7 +9,11 @@ from ..runner import Prop
 CUTTERS = [["take", "1"], ["take", "2"], ["first"], ["elementat", "1"], ["takewhile", "lt2"],
            ["contains", "1"], ["all", "lt1"]]
 MIDDLE = [["map", "add0"], ["filter", "true"], ["skip", "0"], ["scan", "add", "0"], ["tap"], ["distinct"],
-          ["pairwise"], ["bufcount", "1"], ["skipwhile", "false"], ["duc"]]
+          ["pairwise"], ["bufcount", "1"], ["skipwhile", "false"], ["duc"],
+          # operators that may end the stream themselves, here as INTERMEDIATE operators that do not
+          # (yet): their is_finished must still forward what is below them
+          ["take", "50"], ["takewhile", "true"], ["takewhilei", "true"], ["contains", "-77"],
+          ["all", "true"], ["elementat", "40"], ["dflt", "9"]]
 TWO = ["merge", "zip", "combine", "withlatest", "takeuntil", "skipuntil", "sample", "buffer"]
 
 
